@@ -49,6 +49,12 @@ def run(repo, rep, tier):
     from .c06 import _loop
     _loop(repo, rep, rule="R20.4")
     _lone_value(repo, rep)
+    # 'the string form of expr's value': a name is the template variable of
+    # that name whenever it is bound -- also to 0, '' or None -- and a
+    # Python builtin only otherwise (C04 owns the lookup-order rules)
+    from . import c04
+    L.borrow(repo, rep, "R20.4", "C04", c04._lookup,
+             ("builtin-default", "lookup-order", "name-"), minimum=1)
 
 
 def _routing(repo, rep):
@@ -188,6 +194,33 @@ def _escape(repo, rep):
               construct="entities-in-text-mode", where=L.where(f),
               detail=str([A.show(w.kwargs.get("decode_htmlentities"))
                           for w in interp]))
+    # ... and the flag arrives: it is passed by keyword, so either the node
+    # class declares it as a field or the node base class stores every
+    # keyword it is given (not only declared fields)
+    icls = repo.cls("chameleon.nodes.Interpolation")
+    fields = icls.attrs.get("_fields")
+    declared = isinstance(fields, ast.Tuple) and any(
+        isinstance(e, ast.Constant) and e.value == "decode_htmlentities"
+        for e in fields.elts)
+    ni = repo.func("chameleon.astutil.Node.__init__")
+    kw = ni.node.args.kwarg.arg if ni.node.args.kwarg else None
+    stores_all = False
+    for n in ast.walk(ni.node):
+        if isinstance(n, ast.Call) and src(n.func) == "self.__dict__.update" \
+                and n.args and src(n.args[0]) == kw and not L.guards_of(
+                    n, ni.node):
+            stores_all = True
+        if isinstance(n, ast.For) and kw and src(n.iter) == kw + ".items()" \
+                and not L.guards_of(n, ni.node) and any(
+                    isinstance(c, ast.Call) and src(c.func) == "setattr"
+                    and not [g_ for g_ in L.guards_of(c, n)]
+                    for c in ast.walk(n)):
+            stores_all = True
+    rep.check(declared or stores_all, "R20.2", ni.qualname, "a keyword "
+              "given to a node constructor reaches the node: "
+              "decode_htmlentities is a declared field of Interpolation, or "
+              "Node.__init__ stores every keyword unconditionally",
+              construct="node-keywords-stored", where=L.where(ni))
     g = repo.func("chameleon.compiler.ExpressionTransform.visit_Interpolation")
     calls = [n for n in ast.walk(g.node) if isinstance(n, ast.Call)
              and src(n.func) == "Interpolator"]
